@@ -492,6 +492,9 @@ func runAutoOnce(row *autoRow, pacing int, r *rand.Rand, bad bool, rec *autoReco
 				cache.Lock()
 				rec.log(map[string]interface{}{"ev": "fs", "a": a.A, "d": a.D, "n": a.N, "c": a.C})
 				err = w.do(a)
+				// the operation took effect somewhere between the two entries: fsnotify's reader, which does
+				// not take the cache lock, may have looked at the directory before or after it
+				rec.log(map[string]interface{}{"ev": "fsdone"})
 				cache.Unlock()
 			} else {
 				err = w.do(a)
